@@ -181,7 +181,7 @@ func (c *Ctx) Execute(name string, cases []Case, race bool) (string, error) {
 			sem <- struct{}{}
 			defer func() { <-sem }()
 			sh.out = filepath.Join(c.Scratch, fmt.Sprintf("%s-%d.trace", name, i))
-			errs[i] = c.runShard(name, i, sh)
+			errs[i] = c.runShard(name, i, sh, race)
 		}(i, sh)
 	}
 	wg.Wait()
@@ -236,7 +236,14 @@ func (c *Ctx) Execute(name string, cases []Case, race bool) (string, error) {
 // runShard runs one worker; when the worker dies or hangs in a case, a
 // synthetic Crash/Hang event is recorded for that case and the rest of the
 // shard continues in a new worker.
-func (c *Ctx) runShard(name string, idx int, sh *shard) error {
+func (c *Ctx) runShard(name string, idx int, sh *shard, race bool) error {
+	bin := c.Self
+	if race {
+		bin = os.Getenv("VERIF_RACE_BIN")
+		if bin == "" {
+			return fmt.Errorf("no race-enabled harness binary (VERIF_RACE_BIN)")
+		}
+	}
 	remaining := sh.cases
 	ids := sh.ids
 	out, err := os.Create(sh.out)
@@ -251,8 +258,8 @@ func (c *Ctx) runShard(name string, idx int, sh *shard) error {
 		if err := os.WriteFile(in, append(bytes.Join(remaining, []byte("\n")), '\n'), 0o644); err != nil {
 			return err
 		}
-		cmd := exec.Command(c.Self, "worker", "--in", in, "--out", part, "--prog", prog)
-		cmd.Env = append(os.Environ(), "FASTGO_VERIF_ARCHLEVEL="+strconv.Itoa(sh.arch), "GOTRACEBACK=single")
+		cmd := exec.Command(bin, "worker", "--in", in, "--out", part, "--prog", prog)
+		cmd.Env = append(os.Environ(), "FASTGO_VERIF_ARCHLEVEL="+strconv.Itoa(sh.arch), "GOTRACEBACK=single", "GORACE=halt_on_error=1 exitcode=66")
 		var stderr bytes.Buffer
 		cmd.Stderr = &stderr
 		runErr := cmd.Run()
@@ -293,6 +300,9 @@ func (c *Ctx) runShard(name string, idx int, sh *shard) error {
 		kind := "Crash"
 		if f[0] == "HANG" || code == 3 {
 			kind = "Hang"
+		}
+		if bytes.Contains(stderr.Bytes(), []byte("DATA RACE")) {
+			kind = "Race"
 		}
 		ev := map[string]interface{}{"ev": kind, "case": id, "panic": kind + ": " + lastLines(stderr.String(), 3), "arch": sh.arch}
 		b, _ := json.Marshal(ev)
